@@ -474,3 +474,24 @@ def replay_case(prop, check_case, path, opts=None):
     except Inconclusive as e:
         print("inconclusive: %s" % e)
     return res
+
+
+def symbolize(err):
+    """Add file:line to unsymbolized sanitizer frames '(module+0xoff)' (runs with symbolize=0 keep the sanitizer
+    runtime from talking to a symbolizer child process, whose pipe I/O a fault-injection shim would hit)."""
+    import re
+    frames = re.findall(rb"\((/[^()\s]+)\+0x([0-9a-f]+)\)", err)
+    if not frames:
+        return err
+    out = [err, b"\n--- symbolized ---\n"]
+    sym = shutil.which("llvm-symbolizer") or shutil.which("llvm-symbolizer-14")
+    if not sym:
+        return err
+    for mod, off in frames[:24]:
+        try:
+            p = subprocess.run([sym, "--obj=" + mod.decode(), "0x" + off.decode()], stdout=subprocess.PIPE, stderr=subprocess.DEVNULL, timeout=20)
+            lines = p.stdout.decode(errors="replace").strip().split("\n")
+            out.append(("  %s %s\n" % (lines[0], lines[1] if len(lines) > 1 else "")).encode())
+        except Exception:
+            break
+    return b"".join(out)
